@@ -165,6 +165,38 @@ pub fn case_strategy(max_blocks: usize) -> impl Strategy<Value = Case> {
         })
 }
 
+/// Third family: histories in which rival branches contain a block that breaks a contextual rule
+/// (DAO field, reward, chain root, unproposed commit, double spend ...): the switch to such a branch is
+/// refused as a whole, then the honest chain goes on.  The proposal view must not take anything from
+/// the refused branch nor forget what the main chain proposed.
+pub fn refused_switch_strategy(max_blocks: usize) -> impl Strategy<Value = Case> {
+    (
+        0u8..6,
+        prop_oneof![3 => Just(false), 1 => Just(true)],
+        proptest::collection::vec((block_step(40), extra_op(), 0u8..100, 1u8..=11), 8..=max_blocks),
+    )
+        .prop_map(|(variant, pool, steps)| {
+            let mut ops = vec![];
+            for (i, (mut b, e, roll, kind)) in steps.into_iter().enumerate() {
+                if i >= 4 && roll < 14 {
+                    // a rule-breaking block on top of the heaviest leaf or of a rival leaf
+                    b.invalid = kind;
+                    if b.parent_mode == 2 {
+                        b.parent_mode = 1;
+                    }
+                } else if b.parent_mode == 0 {
+                    // honest miners extend the heaviest valid chain
+                    b.parent_mode = 3;
+                }
+                ops.push(Op::Block(b));
+                if let Some(e) = e {
+                    ops.push(e);
+                }
+            }
+            Case { variant, pool, ops }
+        })
+}
+
 /// selector that makes `pick_idx(sel, len) == k`
 fn sel_for(k: usize, len: usize) -> u16 {
     if len == 0 {
@@ -265,6 +297,10 @@ struct Eng<'a> {
     far: u64,
     /// tip moves since the latest reorg / truncate that detached blocks
     since_reorg: Option<u64>,
+    /// a switch to a heavier branch was refused since the last tip change
+    failed_switch: bool,
+    /// blocks the node refused and does not hold (and their descendants, which are not delivered)
+    not_stored: std::collections::HashSet<H>,
     nontrivial: bool,
     restarts: u64,
     max_depth: u64,
@@ -658,6 +694,13 @@ impl Eng<'_> {
             None => return Ok(()),
         };
         let b = self.interp.tree.get(&h).clone();
+        if self.not_stored.contains(&b.parent) {
+            // the node refused the parent and does not hold it: a child would wait in the orphan pool
+            // for ever (a blocking submission of it never returns)
+            self.not_stored.insert(h.clone());
+            st.label("block:invalid-branch:parent-not-stored:not-delivered");
+            return Ok(());
+        }
         if !b.block.uncles().data().is_empty() && b.block.uncles().data().into_iter().any(|u| !u.proposals().is_empty()) {
             st.label("block:uncle-with-proposals");
         }
@@ -674,6 +717,37 @@ impl Eng<'_> {
         }
         let r = self.node().process(&b.block);
         node_panic_violation()?;
+        if !self.interp.chain_valid(&h) {
+            // a block that breaks a rule (or builds on one that does): it may be stored as a side
+            // block or refused, and an attempt to switch to its branch is refused as a whole; the
+            // main chain, and with it the proposal view, stays what it was
+            let heavier = b.td > self.tree().get(&self.cur).td;
+            st.label(match (heavier, r.is_err()) {
+                (true, true) => "block:invalid-branch:switch-refused",
+                (true, false) => "block:invalid-branch:heavier-but-stored",
+                (false, true) => "block:invalid-branch:refused",
+                (false, false) => "block:invalid-branch:stored-as-side-block",
+            });
+            if self.node().tip_hash() != self.cur {
+                vfail!(
+                    "invalid-branch:tip-left-the-valid-chain",
+                    "{where_}: after block #{} {:#x} of a branch with a rule-breaking block ({:?}) the tip is {:#x}, the heaviest valid chain ends at #{}",
+                    b.number,
+                    b.hash,
+                    b.invalid,
+                    self.node().tip_hash(),
+                    self.tree().get(&self.cur).number
+                );
+            }
+            if heavier && r.is_err() {
+                self.failed_switch = true;
+            }
+            if r.is_err() && ckb_store::ChainStore::get_block_header(self.node().shared.store(), &h).is_none() {
+                self.not_stored.insert(h.clone());
+            }
+            self.view_oracle("after-refused-block", where_, st)?;
+            return self.pool_oracle("after-refused-block", where_, st);
+        }
         if let Err(e) = &r {
             vfail!(
                 "commit:model-built-block-rejected",
@@ -684,6 +758,11 @@ impl Eng<'_> {
         }
         let ctx = if b.td > self.tree().get(&self.cur).td {
             let ext = b.parent == self.cur;
+            if self.failed_switch {
+                st.label("block:new-tip-after-a-refused-switch");
+                self.nontrivial = true;
+                self.failed_switch = false;
+            }
             self.on_tip_change(&h, st);
             if ext { "after-extension" } else { "after-reorg" }
         } else {
@@ -779,6 +858,8 @@ fn prop(case: &Case, st: &mut Stats) -> Verdict {
         close: cfg.proposal_window.0,
         far: cfg.proposal_window.1,
         since_reorg: None,
+        failed_switch: false,
+        not_stored: Default::default(),
         nontrivial: false,
         restarts: 0,
         max_depth: 0,
@@ -837,6 +918,10 @@ fn run(ctx: &Ctx) {
     let cases = ctx.cases(260, 2400);
     if want("history") {
         ctx.run_prop("history", cases, case_strategy(max_blocks), prop);
+    }
+    let cases = ctx.cases(160, 1600);
+    if want("refused-switch") {
+        ctx.run_prop("refused-switch", cases, refused_switch_strategy(max_blocks), prop);
     }
     let cases = ctx.cases(260, 2400);
     if want("reorg-depth") {
